@@ -124,6 +124,15 @@ CHECKS["C14"] = dict(
          "diagnostic texts are non-empty for every program.",
     design="DESIGN.md §6 C14")
 
+CHECKS["C19"] = dict(
+    technique="type-level facts read from rustc (statics, receiver kinds, Freeze/Send/Sync auto traits, unsafe blocks) + CFG lint for observable iteration over hash containers + call-graph scan for non-deterministic std services + abstract interpretation of VM::new to constants",
+    text="Decides: no static/thread-local state exists in either crate; the four parse() methods take &self and the parser structs, VM, i8086 and the contexts are "
+         "Freeze+Send+Sync with no unsafe block anywhere (so a parser object cannot remember a line and two machines share nothing); no loop over a HashMap/HashSet "
+         "prints, formats or leaves early with the element (hash-order dependent output); no clock/RNG/env/thread-id/pointer-format call; VM::new yields constant 0 "
+         "in every register except FLAGS=F000h, CS=FFFFh and a fresh zeroed memory, and Default delegates to it. Does NOT decide byte-identity of whole runs directly; "
+         "it removes every source of run-to-run variation that the code's shape can contain.",
+    design="DESIGN.md §6 C19")
+
 NOT_YET = {}
 
 
